@@ -65,8 +65,8 @@ def lattice(name):
                 L.append((dict(config=[m]), span_coords(v) + span_coords(f)))
     elif name == "spike_test":
         for method in ("average", "differential"):
-            for s in (None, 3, 2, 1, 0.5):
-                for f in (None, 3, 2, 1, 0.5):
+            for s in (None, 3, 2, 1, 0.5, 0):
+                for f in (None, 3, 2, 1, 0.5, 0):
                     kw = dict(method=method)
                     if s is not None:
                         kw["suspect_threshold"] = s
